@@ -165,6 +165,15 @@ def _check_vec(v, kind, vals, ctx):
         if np.asarray(r).dtype.kind not in "iu":
             raise Violation(f"rank({m}) is not integer typed", dtype=str(np.asarray(r).dtype))
         ranks[m] = got
+        arr = np.asarray(r)
+        if n and arr.flags.writeable:
+            # an answer belongs to the caller: editing it in place (r -= 1) must not show in later answers
+            arr -= 1
+            again = [int(x) for x in np.asarray(ctx.call(f"rank({m})", lambda: v.rank(method=m)))]
+            twin = [int(x) for x in np.asarray(ctx.call(f"rank({m})", lambda: v.copy().rank(method=m)))]
+            if again != exp or twin != exp:
+                raise Violation(f"rank({m}) answers wrongly after an earlier answer was edited in place by the caller",
+                                again=again, twin=twin, want=exp, input=cs)
     if n:
         order = sorted(range(n), key=lambda i: ranks["ordinal"][i])
         via_rank = [cs[i] for i in order]
